@@ -140,6 +140,11 @@ func (t *Transformer) maybeRecursivelyMangle(mangler Mangler, state *transformMa
 		switch ft.Kind() {
 		case reflect.Ptr, reflect.Array, reflect.Slice:
 			ft = ft.Elem()
+			// the elements of a slice or array of TextUnmarshaler
+			// structs are leaves as well
+			if ft.Implements(textMReflectType) || reflect.PointerTo(ft).Implements(textMReflectType) {
+				continue
+			}
 		}
 
 		fieldTransformer := Transformer{
